@@ -1,4 +1,5 @@
 import Slock.Proofs.EngineInv
+import Slock.Proofs.EngineWake
 import Slock.Proofs.EngineConsts
 /-!
 # C02 — only the owning LockId releases; re-entrant depth is exact
@@ -32,27 +33,30 @@ theorem C02_unlock_refused (db : DB) (c : Cmd) (hinv : DBInv db) (hl : db.leader
     · exact absurd (hk.locked_zero_iff.mpr hf) h0
 
 /-- With cancel-wait (and no hold to release) the LAST queued request bearing that LockId is removed; it is answered
-UNLOCK_ERROR and the canceller LOCKED_ERROR; holds and depth are untouched. -/
+UNLOCK_ERROR and the canceller LOCKED_ERROR. (Since the C04 fix a wake pass follows: the cancelled request may have been
+the head of the queue, so the two replies may be followed by grants — SUCCED replies — to requests queued behind it.) -/
 theorem C02_cancel_wait (db : DB) (c : Cmd) (w : Waiter) (hl : db.leader = true)
     (hnone : findHolder (db.getKey c.key) c.lockId = none)
     (hfirst : has c.flag UF_FIRST = false) (hcancel : has c.flag UF_CANCEL = true)
     (hw : findCancel (db.getKey c.key).waiters c.lockId = some w) :
-    let k := db.getKey c.key
-    let res := opUnlock db c
-    res.2.map (fun r => (r.conn, r.req, r.result)) =
-        [(c.conn, c.req, RESULT_LOCKED_ERROR), (w.conn, w.cmd.req, RESULT_UNLOCK_ERROR)] ∧
-      (res.1.getKey c.key).holders = k.holders ∧ (res.1.getKey c.key).locked = k.locked ∨
-      -- (the key record disappears when it held nothing else)
-      res.2.map (fun r => (r.conn, r.req, r.result)) =
+    ∃ more, (opUnlock db c).2 =
+        [mkReply c RESULT_LOCKED_ERROR (db.getKey c.key).locked 0,
+         mkReply { w.cmd with conn := w.conn } RESULT_UNLOCK_ERROR (db.getKey c.key).locked 0] ++ more ∧
+      (∀ r ∈ more, r.result = RESULT_SUCCED) ∧
+      ((opUnlock db c).2.take 2).map (fun r => (r.conn, r.req, r.result)) =
         [(c.conn, c.req, RESULT_LOCKED_ERROR), (w.conn, w.cmd.req, RESULT_UNLOCK_ERROR)] := by
-  intro k res
-  right
-  show (opUnlock db c).2.map _ = _
-  unfold opUnlock classifyUnlock
-  simp only [hl, Bool.not_true, Bool.false_and, Bool.false_eq_true, if_false, hcancel, hnone, hfirst, hw, if_true]
-  by_cases h0 : (db.getKey c.key).locked = 0
-  · simp only [beq_iff_eq, h0, if_true]; rfl
-  · simp only [beq_iff_eq, h0, if_false]; rfl
+  have hcl : classifyUnlock db c = .cancel w := by
+    unfold classifyUnlock
+    simp only [hl, Bool.not_true, Bool.false_and, Bool.false_eq_true, if_false, hcancel, hnone, hfirst, hw, if_true]
+    by_cases h0 : (db.getKey c.key).locked = 0
+    · simp only [beq_iff_eq, h0, if_true]
+    · simp only [beq_iff_eq, h0, if_false]
+  unfold opUnlock
+  rw [hcl]
+  simp only [applyUnlock]
+  refine Exists.imp (fun more h => ⟨h.1, h.2, ?_⟩) (wake_out_succed _ _ _)
+  rw [h.1]
+  rfl
 
 /-- Re-entrancy decision: while `h` (LockId of the request) holds the key, a plain re-lock succeeds iff
 `depth ≤ Rcount ∧ depth < 255` (and the priority flag is clear). -/
@@ -71,7 +75,8 @@ theorem C02_reentrant_decision (db : DB) (c : Cmd) (h : Hold) (hl : db.leader = 
 /-- A successful re-lock is answered SUCCED with the key's outstanding depth + 1 and the hold's depth + 1
 (the state change is `relock_inv`: the hold's depth and the key's depth sum both grow by exactly one). -/
 theorem C02_relock_effect (db : DB) (c : Cmd) (h : Hold) (hinv : DBInv db) (hb : classifyLock db c = .relock h) :
-    (opLock db c).2 = [mkReply c RESULT_SUCCED ((db.getKey c.key).locked + 1) (h.depth + 1)] ∧
+    (∃ more, (opLock db c).2 = mkReply c RESULT_SUCCED ((db.getKey c.key).locked + 1) (h.depth + 1) :: more ∧
+        ∀ r ∈ more, r.result = RESULT_SUCCED) ∧
       h ∈ (db.getKey c.key).holders ∧ h.depth ≤ (db.getKey c.key).locked := by
   have hm := classifyLock_mem db c h (by rw [hb]; rfl)
   have hk := getKey_inv hinv c.key
@@ -79,6 +84,8 @@ theorem C02_relock_effect (db : DB) (c : Cmd) (h : Hold) (hinv : DBInv db) (hb :
   unfold opLock
   rw [hb]
   simp only [applyLock, updateHold_depth]
+  -- (since the C04 fix a wake pass follows the reply: the re-lock installs the new command, whose Count may be higher)
+  exact wake_out_succed _ _ _
 
 /-- Depth ceiling: a re-lock is only ever accepted while `depth ≤ Rcount` and `depth < 255`;
 so a LockId first granted with depth 1 succeeds at most `Rcount` more times (and never beyond depth 255). -/
